@@ -688,7 +688,7 @@ FAULTS = ('f_wrong_class', 'f_wrong_name', 'f_foreign_elem', 'f_level_add', 'f_l
           'f_children_bad', 'f_settype', 'f_value_badleaf', 'f_deep_level_set', 'f_deep_version_set',
           'f_parent_ctor_level', 'f_parent_ctor_version', 'f_parent_assign_level', 'f_parent_assign_version',
           'f_children_keep_bad', 'f_proxy_badvalue', 'f_dtobject_complex', 'f_ctor_parent_refused',
-          'f_children_moved_then_bad', 'f_stale_handle_badvalue')
+          'f_children_moved_then_bad', 'f_stale_handle_badvalue', 'f_proxy_wrongtype_value', 'f_value_other_datatype_object')
 WILD = ('w_reattach', 'w_add_twice', 'w_set_own', 'w_read', 'w_parent_ctor', 'w_del_view', 'w_pop', 'w_children_assign',
         'w_value', 'w_setitem_view', 'w_deep_write', 'w_detached_readd', 'w_parent_assign', 'w_insert_view',
         'w_dtobject', 'w_setitem_view_elem', 'w_read_beyond', 'w_unnamed_component_value')
@@ -973,6 +973,31 @@ def apply_wild(world, op):
         real = G(lambda: el.add_field(n0))
         G(lambda: setattr(real, 'value', val))
         G(lambda: setattr(handle, 'value', bad))
+    elif k == 'f_proxy_wrongtype_value':
+        # a value that is neither text nor a datatype object nor an element (bytes from a socket, a number, None, a list),
+        # assigned through the proxy of a child that does not exist yet: refused, and nothing stays behind
+        if world.kind != 'segment':
+            raise Skip()
+        absent = [n for n in world.names if not el.children.indexes.get(n)]
+        if not absent:
+            raise Skip()
+        bad = (b'bytes', 12345, None, ['a'])[i % 4]
+        G(lambda: setattr(getattr(el, absent[0].lower()), 'value', bad))
+    elif k == 'f_value_other_datatype_object':
+        # a populated base-datatype field given a datatype object of another class through .value: refused, the old value
+        # stays
+        if world.kind != 'segment':
+            raise Skip()
+        from hl7apy.factories import datatype_factory
+        rws = [r for r in gen.usable_rows(world.version, world.seg) if r.kind == 'leaf' and r.datatype in ('ST', 'ID', 'IS', 'SI')]
+        if not rws:
+            raise Skip()
+        r = rws[i % len(rws)]
+        if not el.children.indexes.get(r.name):
+            G(lambda: setattr(el, r.name.lower(), '1'))
+        fld = el.children.indexes[r.name][0]
+        obj = datatype_factory('NM', '3', world.version, world.level)
+        G(lambda: setattr(fld, 'value', obj))
     elif k == 'f_children_keep_bad':
         # the current children plus one the element must refuse, assigned as a whole
         if world.kind == 'segment':
